@@ -223,6 +223,8 @@ ConnRefSet HyperedgeRerouter::calcHyperedgeConnectors(void)
 
     m_terminal_vertices_vector.clear();
     m_terminal_vertices_vector.resize(count());
+    m_terminal_connends_vector.clear();
+    m_terminal_connends_vector.resize(count());
     m_added_vertices.clear();
 
     // Populate the deleted-object vectors.
@@ -259,6 +261,7 @@ ConnRefSet HyperedgeRerouter::calcHyperedgeConnectors(void)
             maybeNewVertex = it->getHyperedgeVertex(m_router);
             COLA_ASSERT(maybeNewVertex.second != nullptr);
             m_terminal_vertices_vector[i].insert(maybeNewVertex.second);
+            m_terminal_connends_vector[i][maybeNewVertex.second] = &(*it);
 
             if (maybeNewVertex.first)
             {
@@ -335,7 +338,8 @@ void HyperedgeRerouter::performRerouting(void)
         // Fill in connector information and join them to junctions of endpoints
         // of original connectors.
         treeRoot->addConns(nullptr, m_router, 
-                m_deleted_connectors_vector[i], nullptr);
+                m_deleted_connectors_vector[i], nullptr,
+                &m_terminal_connends_vector[i]);
 
         // Output the list of new junctions and connectors from hyperedge tree.
         treeRoot->listJunctionsAndConnectors(nullptr, m_new_junctions_vector[i],
